@@ -5,3 +5,4 @@ import PdProps.C17
 import PdProps.C13
 import PdProps.C16
 import PdProps.C07
+import PdProps.C14
